@@ -65,6 +65,16 @@ CHECKS = {
     category="model_checking", design_ref="4 C11",
     text="TLC checks, for every clique structure of the catalogue and EVERY elimination order, that the conditioning set the code uses separates the new column from the other generated columns in the triangulated graph and that the corresponding marginal identity P(col|used)=P(col|proj) holds in the integer semiring, and that every +1-on-distinct-fractional-cells outcome is an apportionment with error < 1. Real synthetic_data runs (zero-probability cells, totals, rows 1..1e4 (thorough 1e6), round/sample, repeated calls on a model with cached marginals) are checked for row count, value ranges, empty impossible cells and an n-independent rounding bound on every clique; their H3 traces must name exactly the spec's conditioning sets, condition on exactly the joint's integer marginal at each group, and produce an apportionment (round) or a histogram supported on the positive cells (sample).",
     note="numpy's samplers are trusted (no statistical test); traces validated for rows <= 400 (32-bit TLC integers)."),
+ "C05": dict(
+    technique="TLA+ privacy ledger with each mechanism's published budget arithmetic (spec/dp/Ledger.tla; AIM's adaptive annealing explored exhaustively by TLC) and trace validation (spec/dp/LedgerTrace.tla) of ledgers recorded from lock-step runs on neighbouring datasets under RNG interposition",
+    category="model_checking", design_ref="4 C05",
+    text="TLC explores the AIM budget machine over every annealing history (d 1-4, rounds 4-64: WithinBudget, RemainderOK, Progress) with a negative control for rounds < 0.9 d, and states the fixed schedules of MST, MWEM+PGM and AdaGrid in budget micro-units. Every mechanism is executed on seeded datasets (<= 6 records, empty, one-cell, an adversarial dataset for score sensitivity) and re-executed on their neighbours (add/remove-one, or replace-one for bounded MWEM) while observing identical released values and selections; each primitive is charged by the ACTUAL change of its operand (Gaussian: |dx|^2/2s^2, Laplace: |dx|_1/b) or of its selection probabilities (bounded range eta: eta^2/8, or max log-ratio under pure DP). LedgerTrace.tla requires the published sequence of primitives, the published noise scale at every position, actual <= design charge for every primitive and cumulative design charge <= budget.",
+    note="autodp/hdmm stand-ins and a settable csr_matrix.T shim (environment); estimator iterations capped (post-processing); cdp_rho trusted here (C07). Known finding F7 listed."),
+ "C06": dict(
+    technique="TLA+ taint model of the four mechanisms (spec/dp/NonInterference.tla: 2-safety reduced to NoLeak/PublicStaysPublic) model-checked by TLC; pairs of real executions on neighbouring datasets replaying identical observations validated by spec/dp/NITrace.tla",
+    category="model_checking", design_ref="4 C06",
+    text="TLC checks, on a statement-level transcription of MST, AIM, MWEM+PGM and AdaGrid, that no branch condition, noise scale, candidate set or output is tainted by the private data except through a release or selection (bounded MWEM's record count is the one named exception). Each mechanism is then run on seeded datasets (incl. empty, one-cell, constant-attribute, noise-dominated) and re-run on all (quick: 5 sampled) neighbours made to observe the recorded released values, selected indices and post-processing draws; NITrace.tla requires identical primitive sequences (kind, distribution, bitwise scale, operand shape, candidate count), identical post-processing randomness and identical returned data, conforming to the input's original domain. A replay that cannot consume the recorded observations is a violation.",
+    note="Timing/memory side channels out of scope; shims as in C05."),
 }
 
 NOT_YET = "check not built yet (work in progress, see DESIGN.md section 8 build order)"
